@@ -10,7 +10,7 @@ from engine.dataflow import ReachingDefs, target_names, assigned_value
 from engine.srcmodel import walk_shallow, norm, parent, set_parents
 from engine.util import call_name, contains, get_method, in_body, fstring_template
 from ._c01_util import (bound_by_inner_scope, loads, load_ids, strip_wrappers, bounded_paths, branch_outcome,
-                        membership_facts, read_reserved, literal_pieces, alias_root, list_shapes, LVal, Scalar, Delegate)
+                        membership_facts, read_reserved, literal_pieces, alias_root, AliasRoot, list_shapes, LVal, Scalar, Delegate)
 
 PROPERTY = "C01"
 IR = "pyrates/ir/circuit.py"
@@ -478,29 +478,46 @@ def _stores_field(st: ast.stmt) -> bool:
     return False
 
 
+def _drop_paths(stmts, states=frozenset([False])):
+    """Walk a statement list; a state is `has the value been stored on this path`.  Returns (states of the paths that fall
+    through the end, True when some path leaves early — continue / break / return — without having stored the value)."""
+    dropped = False
+    for st in stmts:
+        if not states:
+            break
+        if isinstance(st, ast.Raise):
+            states = frozenset()
+        elif isinstance(st, (ast.Continue, ast.Break, ast.Return)):
+            dropped = dropped or (False in states)
+            states = frozenset()
+        elif isinstance(st, ast.If):
+            s1, d1 = _drop_paths(st.body, states)
+            s2, d2 = _drop_paths(st.orelse, states)
+            states, dropped = s1 | s2, dropped or d1 or d2
+        elif isinstance(st, ast.Try):
+            s1, d1 = _drop_paths(st.body, states)
+            outs, dropped = s1, dropped or d1
+            for h in st.handlers:
+                s2, d2 = _drop_paths(h.body, states)
+                outs, dropped = outs | s2, dropped or d2
+            states = outs
+        elif isinstance(st, (ast.For, ast.While, ast.With)):
+            continue
+        elif _stores_field(st):
+            states = frozenset([True])
+    return states, dropped
+
+
 def _settles(stmts) -> bool:
     """Every path through the statement list stores the value somewhere or raises."""
-    for st in stmts:
-        if isinstance(st, ast.Raise):
-            return True
-        if isinstance(st, ast.If):
-            if st.orelse and _settles(st.body) and _settles(st.orelse):
-                return True
-            continue
-        if isinstance(st, ast.Try):
-            if _settles(st.body) and all(_settles(h.body) for h in st.handlers):
-                return True
-            continue
-        if isinstance(st, (ast.For, ast.While, ast.With)):
-            continue
-        if _stores_field(st):
-            return True
-    return False
+    states, dropped = _drop_paths(stmts)
+    return not dropped and False not in states
 
 
 def _silent_discard(pm) -> Optional[ast.AST]:
     """The part of the merge code that drops the second value of a non-list field: an exception handler of the merge through
-    which a path exists that neither stores the value nor raises (`if ...: pass`, an `if` without `else`, a bare `pass`)."""
+    which a path exists that neither stores the value nor raises (`if ...: pass`, an `if` without `else`, a bare `pass`,
+    `if ...: continue`)."""
     for t in pm["tries"]:
         for h in t.handlers:
             if not _settles(h.body):
@@ -572,7 +589,7 @@ def r3_grouping_key_determines_scalar_fields(ctx, rid):
                         ctx.ok(rid, prod, pm["create"], f"a second, different '{fld}' in one group raises", facts, label=label)
                         continue
                     disc = _silent_discard(pm)
-                    facts["second_value"] = ("silently discarded by `" + norm(disc) + " … pass`") if disc is not None else "merged into a list"
+                    facts["second_value"] = ("silently discarded on a path through `" + norm(disc) + "`") if disc is not None else "merged into a list"
                     ctx.violation(rid, prod, pm["create"],
                                   f"{prod.qualname} groups the incoming edges of one target variable by `{ast.unparse(pm['key'])}` only, "
                                   f"but {cons.qualname} uses the group's '{fld}' as one string (`{norm(use_st)}`): two edges from "
@@ -1341,15 +1358,38 @@ def _names_bound_in(st: ast.AST) -> Set[str]:
     return out
 
 
-def _conjuncts(ctx, f, e: Optional[ast.AST]) -> Optional[Set[str]]:
-    """The condition as a set of conjunct texts, local single-definition aliases inlined (`a and b` == `b and a`)."""
+def _conjuncts(ctx, f, e: Optional[ast.AST], binding=None, outer=None) -> Optional[Set[str]]:
+    """The condition as a set of conjunct texts, local single-definition aliases inlined (`a and b` == `b and a`).
+    With `binding` (parameter of f -> argument expression in `outer`) the condition of a helper is expressed in the caller's terms."""
+    import copy as _copy
+    from engine.util import inline_locals
     if e is None:
         return None
     try:
-        from engine.util import inline_locals
         e = inline_locals(ctx, f, e)
     except Exception:
         pass
+    if binding:
+        bound = {}
+        for k, x in binding.items():
+            try:
+                bound[k] = inline_locals(ctx, outer, x)
+            except Exception:
+                bound[k] = x
+
+        def S(n):
+            if isinstance(n, ast.Name) and n.id in bound:
+                return _copy.copy(bound[n.id])
+            if not isinstance(n, ast.AST):
+                return n
+            new = _copy.copy(n)
+            for field, val in ast.iter_fields(n):
+                if isinstance(val, list):
+                    setattr(new, field, [S(x) if isinstance(x, ast.AST) else x for x in val])
+                elif isinstance(val, ast.AST):
+                    setattr(new, field, S(val))
+            return new
+        e = S(e)
     parts = []
 
     def rec(x):
@@ -1467,8 +1507,30 @@ def r6_names_and_values_from_one_iteration(ctx, rid):
         if not isinstance(nroot.expr, ast.Name):
             raise AnalysisError(f"{rid}: {f.qual}: returned names `{ast.unparse(n_e)}` have an unrecognised form")
         N, ndef, n_names = nroot.expr.id, nroot.defstmt, set(nroot.names)
-        # ---- values: seeds, then one pass over a list
-        segs, v_names, vinit = _value_segments(ctx, f, rid, v_e)
+        # ---- values: seeds, then one pass over a list — built here or by a private helper the result is taken from
+        vf, binding, site = f, {}, None
+        vr = _copy_root(ctx, f, v_e)
+        vcall = vr.value if isinstance(vr.expr, ast.Name) else vr.expr
+        if isinstance(vcall, ast.Call) and call_name(vcall) not in ("list", "tuple"):
+            targets, how = ctx.cg.resolve_call(f, vcall)
+            hrets = [n for n in walk_shallow(targets[0].node) if isinstance(n, ast.Return)] if len(targets) == 1 else []
+            if len(targets) != 1 or how == "by-name" or len(hrets) != 1 or hrets[0].value is None:
+                raise AnalysisError(f"{rid}: {f.qual}: the values come from `{ast.unparse(vcall.func)}(…)`, which cannot be resolved to one "
+                                    f"function with one return")
+            vf, site = targets[0], stmt_of(cfg, vcall)
+            binding = _bind_args(vf, vcall)
+            v_e = hrets[0].value
+
+        def outer_key(key: str) -> str:
+            """A name key of the helper's frame in terms of the caller (parameter -> the argument it is bound to)."""
+            return _elem_key(ctx, f, binding[key]) if key in binding else key
+
+        def outer_ids(e: ast.AST) -> Set[str]:
+            out: Set[str] = set()
+            for nm in load_ids(e):
+                out |= load_ids(binding[nm]) if nm in binding else {nm}
+            return out
+        segs, v_names, vinit = _value_segments(ctx, vf, rid, v_e)
         V = v_names[0] if v_names else "⟨values⟩"
         iters = [p for k, p in segs if k == "iter"]
         if len(iters) != 1:
@@ -1476,14 +1538,21 @@ def r6_names_and_values_from_one_iteration(ctx, rid):
         if segs[-1][0] != "iter":
             raise AnalysisError(f"{rid}: {f.qual}: values are added to `{V}` after the pass over the names (unrecognised)")
         it = iters[0]
-        L = it.stmt
+        L = it.stmt if site is None else site
         seeds_all = [p for k, p in segs if k == "seed"]
         seeds = [x for x, cond, _st in seeds_all if cond is None]
         cond_seeds = [(x, cond, st) for x, cond, st in seeds_all if cond is not None]
         facts = {"names": N, "values": V, "loop": norm(it.node), "seeds": [ast.unparse(s) for s in seeds],
                  "names_from": norm(ndef)}
         # ---- the pass iterates the returned name list itself
-        iroot = _copy_root(ctx, f, it.it)
+        iroot = _copy_root(ctx, vf, it.it)
+        inner_names: Set[str] = set()
+        if site is not None and isinstance(iroot.expr, ast.Name) and iroot.defstmt is None and iroot.expr.id in binding:
+            inner_names = set(iroot.names)
+            iroot = _copy_root(ctx, f, binding[iroot.expr.id])
+        elif site is not None:
+            iroot = AliasRoot(iroot.expr, [], None, None, False) if not isinstance(iroot.expr, ast.Name) else \
+                AliasRoot(ast.Constant(value=None), [], None, None, False)
         same = isinstance(iroot.expr, ast.Name) and iroot.defstmt is ndef
         if not same:
             ctx.violation(rid, f, L, f"the argument values are collected by `{norm(it.node)}` but the names returned to the user are `{N}` "
@@ -1498,6 +1567,16 @@ def r6_names_and_values_from_one_iteration(ctx, rid):
                    or (isinstance(n, ast.Subscript) and isinstance(n.value, ast.Name) and n.value.id in n_names and isinstance(n.ctx, (ast.Store, ast.Del)))
                    or (isinstance(n, ast.AugAssign) and isinstance(n.target, ast.Name) and n.target.id in n_names)]
         nm_muts = [n for n in nm_muts if cfg.reachable_after(ndef, stmt_of(cfg, n))]
+        if site is not None and not nm_muts:
+            inner = [n for n in walk_shallow(vf.node)
+                     if (isinstance(n, ast.Call) and isinstance(n.func, ast.Attribute) and isinstance(n.func.value, ast.Name)
+                         and n.func.value.id in inner_names and n.func.attr in ("sort", "reverse", "pop", "insert", "append", "remove", "extend", "clear"))
+                     or (isinstance(n, ast.Subscript) and isinstance(n.value, ast.Name) and n.value.id in inner_names
+                         and isinstance(n.ctx, (ast.Store, ast.Del)))]
+            if inner:
+                ctx.violation(rid, f, site, f"the name list `{N}` is modified in place by {vf.qualname} (`{norm(stmt_of(ctx.cfg(vf), inner[0]))}`) "
+                                            f"although values are paired with it by position", facts, label="one list for names and values")
+                continue
         if nm_muts:
             ctx.violation(rid, f, stmt_of(cfg, nm_muts[0]), f"the name list `{N}` is modified in place (`{norm(stmt_of(cfg, nm_muts[0]))}`) "
                                                             f"although values are paired with it by position", facts,
@@ -1510,11 +1589,13 @@ def r6_names_and_values_from_one_iteration(ctx, rid):
             raise AnalysisError(f"{rid}: {f.qual}: loop target of `{norm(it.node)}` is not a single name")
         a = it.target.id
         problems: List[str] = []
-        outcomes = _iteration_outcomes(ctx, f, rid, it, a, v_names or [V], problems)
+        outcomes = _iteration_outcomes(ctx, vf, rid, it, a, v_names or [V], problems)
+        receivers = {vf.self_name} if vf.self_name else set()
+        receivers |= {p_ for p_, x in binding.items() if isinstance(x, ast.Name) and x.id == selfn}
 
         def is_get(val, rebound) -> bool:
             if rebound or not (isinstance(val, ast.Call) and call_name(val) == "get_var" and isinstance(val.func, ast.Attribute)
-                               and isinstance(val.func.value, ast.Name) and val.func.value.id == selfn):
+                               and isinstance(val.func.value, ast.Name) and val.func.value.id in receivers):
                 return False
             first = val.args[0] if val.args else next((k.value for k in val.keywords if k.arg == "var"), None)
             return isinstance(first, ast.Name) and first.id == a
@@ -1530,6 +1611,7 @@ def r6_names_and_values_from_one_iteration(ctx, rid):
                 for key in s.pos:
                     by_name.setdefault(key, []).append(s)
         skipped: List[str] = []
+        by_name = {outer_key(k): ss for k, ss in by_name.items()}
         for key, ss in sorted(by_name.items()):
             counts = {s.count for s in ss}
             if counts == {0}:
@@ -1565,7 +1647,7 @@ def r6_names_and_values_from_one_iteration(ctx, rid):
                 if not (isinstance(seeds[0], ast.Constant) and isinstance(seeds[0].value, (int, float))):
                     problems.append(f"the first seeded value `{ast.unparse(seeds[0])}` is not the initial time constant")
                 sv_src = _state_vec_source(ctx, f, sv_kw)
-                if sv_src is None or sv_src not in load_ids(seeds[1]):
+                if sv_src is None or sv_src not in outer_ids(seeds[1]):
                     problems.append(f"the second seeded value `{ast.unparse(seeds[1])}` is not the state vector `{sv_src}` stored under the "
                                     f"state-vector key")
             extra = [k for k in skipped if k not in (repr("t"), sv_key, HIST)]
@@ -1576,7 +1658,7 @@ def r6_names_and_values_from_one_iteration(ctx, rid):
                     problems.append(f"'hist' is skipped in the loop but {len(cond_seeds)} conditional values are seeded for it")
                 else:
                     _x, cond, cst = cond_seeds[0]
-                    if hist_kw is None or _conjuncts(ctx, f, cond) != _conjuncts(ctx, f, hist_kw):
+                    if hist_kw is None or _conjuncts(ctx, vf, cond, binding, f) != _conjuncts(ctx, f, hist_kw):
                         problems.append(f"the history callable is seeded under `{ast.unparse(cond)}` but "
                                         f"'hist' is in the name list iff `{ast.unparse(hist_kw) if hist_kw is not None else None}`")
                     elif [k for k, _p in segs].index("iter") < len(segs) - 1 or \
